@@ -140,7 +140,27 @@ def from_array_truncated(ctx, rows, cols, cplx, use_theta, max_rank):
         meta_ok(ctx, tag, t)
         if max_rank is not None:
             ctx.check(tag + ': no inner rank exceeds max_rank', all(r <= max_rank for r in t.ranks[1:-1]))
+        if ctx.mode == 'tv':
+            return t.ranks
         if not ctx.sym:
+            # concrete mode (replays): the property's own sentences, against NumPy SVDs of the unfoldings of x
+            xn = np.asarray(x)
+            p_ = [d * j + i for i in range(d) for j in range(2)]
+            y_ = xn.transpose(p_)
+            err2 = float(np.linalg.norm(np.asarray(t.full()).reshape(-1) - xn.reshape(-1)) ** 2)
+            bound2, ndisc = 0.0, 0
+            for k in range(1, d):
+                m_ = int(np.prod([rows[i] * cols[i] for i in range(k)]))
+                sv = np.linalg.svd(y_.reshape(m_, -1), compute_uv=False)
+                bound2 += float(np.sum(sv[t.ranks[k]:] ** 2))
+                ndisc += max(0, len(sv) - t.ranks[k])
+            nx = float(np.linalg.norm(xn))
+            ctx.check('TT(x, theta, max_rank): Frobenius error <= root-sum-square of the best rank-r errors of the unfoldings (TT-SVD bound)',
+                      err2 <= bound2 * (1 + 1e-8) + 1e-20 * max(1.0, nx * nx), detail='err^2 %.6e bound^2 %.6e' % (err2, bound2))
+            if use_theta and max_rank is None:
+                th = float(theta)
+                ctx.check('TT(x, theta, max_rank): error <= threshold * ||x|| * sqrt(#discarded directions)',
+                          err2 <= (th * nx) ** 2 * ndisc * (1 + 1e-8) + 1e-20 * max(1.0, nx * nx), detail='err^2 %.6e theta %.4f ndisc %d' % (err2, th, ndisc))
             return t.ranks
         from symtt import state
         calls = [c for c in state.S.stub_log if c.kind == 'svd']
